@@ -379,14 +379,95 @@ def check_error_class(res, facts, e, v, info):
     res.inst("C03.R8", "%s: %d pre-authentication failure exits, none is a UTF-8 / JSON / claim error" % (e.label, n))
 
 
+def _only_from_factory(facts):
+    g = M.call_graph(facts)
+    rev = {}
+    for a, bs_ in g.items():
+        for b_ in bs_:
+            rev.setdefault(b_, set()).add(a)
+
+    def only_from(x, roots, seen=None):
+        seen = seen or set()
+        if x in roots:
+            return True
+        if x in seen:
+            return True
+        seen.add(x)
+        b_ = facts.bodies.get(x)
+        if b_ is None or (b_.get("vis") == "pub" and "{closure" not in x):
+            return False
+        cs = rev.get(x, set())
+        return bool(cs) and all(only_from(c_, roots, seen) for c_ in cs)
+    return only_from
+
+
+def _outside_scan(res, facts, scope, what):
+    """JSON parsing of token content and validator calls only in functions of `scope` / reached only from them"""
+    only_from = _only_from_factory(facts)
+    for bid, b in facts.bodies.items():
+        if bid in scope:
+            continue
+        v = M.view(facts, b)
+        for bi, t in v.calls:
+            c = t["callee"]
+            td = M.callee_trait_def(c)
+            if re.search(r"^serde_json::de::from_str$|^serde_json::de::from_slice$", td) and re.search(r"parsers::|paseto_parser", bid) and not only_from(bid, scope):
+                res.oblige(False)
+                res.violate("C03.R6", bid, "token JSON parsed outside " + what, "serde_json deserialisation in the parser layer outside " + what, file=v.file(), line=t["ln"])
+            if (re.search(r"core::ops::function::Fn::call$", td) and "ValidatorFn" in " ".join(c.get("gargs", [])) + M.callee_name(c) or (re.search(r"core::ops::function::Fn::call$", td) and re.search(r"dyn .*Fn\(&.*str, &.*Value\)", M.callee_name(c)))) and not only_from(bid, scope):
+                res.oblige(False)
+                res.violate("C03.R6", bid, "validator invoked outside " + what, "a claim validator is called in %s" % M.short(bid), file=v.file(), line=t["ln"])
+
+
+def _prelude_wrappers(res, facts, entries):
+    from .. import layers
+    gen_cons = {e.id: e for e in S.select(entries, "generic", "consumer")}
+    lay = layers.analyse(facts, entries)
+    for e in S.select(entries, "prelude", "consumer"):
+        v = M.view(facts, e.body)
+        fs, _why = lay.get(e.id, (None, None))
+        if fs is not None:
+            f = [x for x in fs if x.rule == "C03.R6"][0]
+            res.oblige(f.ok)
+            if f.ok:
+                res.inst("C03.R6", f.desc)
+            else:
+                res.violate("C03.R6", f.where, f.construct, f.msg, file=f.file, line=f.line)
+            continue
+        names = [(t["callee"].get("resolved") or t["callee"].get("def")) for _, t in v.calls]
+        ok = len(names) == 1 and names[0] in gen_cons and gen_cons[names[0]].vp == e.vp
+        res.oblige(ok)
+        res.inst("C03.R6", "%s: delegates to %s" % (e.label, M.short(names[0]) if names else "?"))
+        if not ok:
+            res.violate("C03.R6", e.id, "prelude parse does more than delegate", "expected exactly one call, to GenericParser::<%s, %s>::parse; found %s" % (e.vp[0], e.vp[1], [M.short(n) for n in names]), file=v.file(), line=e.body["line"])
+
+
+
+
 def check_wrappers(res, facts, entries):
     """R6: claims are examined only on authenticated text; validators run only inside verify_claims."""
     vc_pat = r"generic_parser::<impl crate::generic::parsers::generic_parser::GenericParser<'a, 'b, Version, Purpose>>::verify_claims$"
     vc_bodies = [b for bid, b in facts.bodies.items() if re.search(r"GenericParser::<.*>::verify_claims$", bid)]
-    res.oblige(len(vc_bodies) == 1)
     if len(vc_bodies) != 1:
-        res.violate("C03.R6", "GenericParser::verify_claims", "anchor missing", "expected exactly one verify_claims function, found %d" % len(vc_bodies))
+        # no single function plays verify_claims: decided for each parse method interpreted whole with the core call summarised (the payload
+        # is examined - parsed, compared, handed to a validator - only on the Ok value of the authenticating call)
+        from .. import claims_sem
+        fs = claims_sem.parse_contracts(facts, entries)
+        if fs and all(f.ok is not None for f in fs) and len(fs) >= 8:
+            for f in fs:
+                res.oblige(f.ok)
+                if f.ok:
+                    res.inst("C03.R6", f.desc)
+                    res.inst("C03.R6", f.desc + " (no other caller: claim checking is part of the parse methods)")
+                else:
+                    res.violate("C03.R6", f.where, f.construct, f.msg, file=f.file, line=f.line)
+            _outside_scan(res, facts, set(e.id for e in S.select(entries, "generic", "consumer")), "the parse methods")
+            _prelude_wrappers(res, facts, entries)
+            return
+        res.oblige(False)
+        res.violate("C03.R6", "GenericParser::verify_claims", "anchor missing", "expected exactly one verify_claims function, found %d (and the parse methods could not be decided whole)" % len(vc_bodies))
         return
+    res.oblige(True)
     vc = vc_bodies[0]
     callers = []
     for bid, b in facts.bodies.items():
@@ -458,39 +539,8 @@ def check_wrappers(res, facts, entries):
         if not okd:
             res.violate("C03.R6", e.id, "result not produced by verify_claims", "the parser returns a value that did not go through verify_claims", file=v.file(), line=e.body["line"])
         res.inst("C03.R6", "%s: verify_claims(tryok(core call)) after authentication" % e.label)
-    # JSON parsing of token content and validator calls only in verify_claims (and only on its own parameter)
-    for bid, b in facts.bodies.items():
-        if bid == vc["id"] or b["from_expansion"] and False:
-            continue
-        v = M.view(facts, b)
-        for bi, t in v.calls:
-            c = t["callee"]
-            td = M.callee_trait_def(c)
-            if re.search(r"^serde_json::de::from_str$|^serde_json::de::from_slice$", td) and re.search(r"parsers::|paseto_parser", bid) and not only_from(bid, {vc["id"]}):
-                res.oblige(False)
-                res.violate("C03.R6", bid, "token JSON parsed outside verify_claims", "serde_json deserialisation in the parser layer outside verify_claims", file=v.file(), line=t["ln"])
-            if (re.search(r"core::ops::function::Fn::call$", td) and "ValidatorFn" in " ".join(c.get("gargs", [])) + M.callee_name(c) or (re.search(r"core::ops::function::Fn::call$", td) and re.search(r"dyn .*Fn\(&.*str, &.*Value\)", M.callee_name(c)))) and not only_from(bid, {vc["id"]}):
-                res.oblige(False)
-                res.violate("C03.R6", bid, "validator invoked outside verify_claims", "a claim validator is called in %s" % M.short(bid), file=v.file(), line=t["ln"])
-    # prelude parsers only delegate
-    lay = layers.analyse(facts, entries)
-    for e in S.select(entries, "prelude", "consumer"):
-        v = M.view(facts, e.body)
-        fs, _why = lay.get(e.id, (None, None))
-        if fs is not None:
-            f = [x for x in fs if x.rule == "C03.R6"][0]
-            res.oblige(f.ok)
-            if f.ok:
-                res.inst("C03.R6", f.desc)
-            else:
-                res.violate("C03.R6", f.where, f.construct, f.msg, file=f.file, line=f.line)
-            continue
-        names = [(t["callee"].get("resolved") or t["callee"].get("def")) for _, t in v.calls]
-        ok = len(names) == 1 and names[0] in gen_cons and gen_cons[names[0]].vp == e.vp
-        res.oblige(ok)
-        res.inst("C03.R6", "%s: delegates to %s" % (e.label, M.short(names[0]) if names else "?"))
-        if not ok:
-            res.violate("C03.R6", e.id, "prelude parse does more than delegate", "expected exactly one call, to GenericParser::<%s, %s>::parse; found %s" % (e.vp[0], e.vp[1], [M.short(n) for n in names]), file=v.file(), line=e.body["line"])
+    _outside_scan(res, facts, {vc["id"]}, "verify_claims")
+    _prelude_wrappers(res, facts, entries)
 
 
 def check_base64(res, facts):
